@@ -216,4 +216,21 @@ PROPS = {
         stub=["input (in-memory value slices)"],
         assumptions=["error values are passed through unshaped by design and are only used as field values", "maps of differing types run under their own signature (known finding, upstream issue #2894)"],
     ),
+    "C19": dict(
+        engine="lakesim", level="exploration", gomaxprocs=2,
+        budget_s=dict(quick=45, thorough=1500),
+        rule=("one run = 2..14 operations applied to twin lakes on the real file engine under a private directory: lake A through the direct handle (lakeapi.FromRoot), lake B through "
+              "service.Core behind an in-memory http.RoundTripper with api/client and lakeapi.NewRemoteLake on the other end. Operations: create/rename/remove pool, create/remove branch, load "
+              "(through the interface, or a body in zng/zson/zjson/json/csv/vng or auto-detected, decoded directly the way the service decodes it), delete by object, delete-where, compact, "
+              "merge, revert, add/delete vectors, vacuum, queries answered as values or as zng (with and without control frames)/zson/zjson/json/ndjson/csv bodies. Objects and commits are chosen "
+              "by position, never by id. Faults (half of the runs): the client drops a query response after k bytes and asks again; an upload fails after k bytes / values; a data object is "
+              "lost or truncated in both lakes under a scan. Oracle after every operation: same verdict (error or not) on both paths; same pools, branches, values, object metadata and log "
+              "length; query bodies byte-identical to the directly obtained values formatted alike (or equal as multisets when the program defines no order); when the direct scan reports an "
+              "error the service's client must be told (status, broken body, in-band error or the query-status endpoint); every handler has returned by the end of the run; no handler panics. "
+              "Non-trivial = more than one operation."),
+        real=REAL_LAKE + ["service.Core, handlers, middleware, request/response writers", "api/client, api/queryio", "lake/api local and remote", "storage.FileSystem on a private directory"],
+        stub=["HTTP transport (in-memory http.RoundTripper: handler runs in-process, response body is a pipe; a closed body cancels the server's request context)", "clock (synctest bubble)"],
+        assumptions=["the twins get different (seeded) object and commit ids, so ids, timestamps and id-dependent tie order are not compared",
+                     "error texts are not compared, only error/no error", "authentication, CORS, events and the auxiliary routes are not exercised"],
+    ),
 }
